@@ -38,7 +38,8 @@
           as a LOCAL function of the unit (the standard allows either the inline or an external
           definition to be called); gcc -O0 calls the external one instead (UNDEFINED reference).
      (iii) an initialized object goes to .data/.tdata even when the initializer is 0.
-     (iv) the size of FUNC symbols and the alignment of .text symbols are not constrained (None). *)
+     (iv) the size of FUNC symbols and the alignment of .text symbols are not constrained (None).
+     (v) see spec_anon: block-scope statics live and die with their function. *)
 From Coq Require Import List Bool Arith ZArith.
 Import ListNotations.
 
@@ -230,11 +231,14 @@ Definition anon_of_item (b : bitem) : list anon_obj :=
       [mkAnon (if tls then (if hi then P_tdata else P_tbss) else (if hi then P_data else P_bss)) sz (abi_align arr sz al)]
   | BString sz => [mkAnon P_data sz (abi_align true sz 1)]
   end.
-(* in source order; every function definition first gets the two arrays __func__ and __FUNCTION__ *)
-Definition spec_anon (ds : list decl) : list anon_obj :=
+(* in source order; every function definition first gets the two arrays __func__ and __FUNCTION__.
+   Choice (v): the block-scope statics of a function that is not emitted are not placed either (nothing can reach them);
+   the strings and the __func__ arrays of such a function are still placed (chibicc does, harmlessly) *)
+Definition spec_anon (live : nat -> bool) (ds : list decl) : list anon_obj :=
   flat_map (fun d => match d with
-                     | DFun _ _ _ fsz (Some b) =>
-                         mkAnon P_data fsz (abi_align true fsz 1) :: mkAnon P_data fsz (abi_align true fsz 1) :: flat_map anon_of_item b
+                     | DFun g _ _ fsz (Some b) =>
+                         mkAnon P_data fsz (abi_align true fsz 1) :: mkAnon P_data fsz (abi_align true fsz 1)
+                         :: flat_map (fun i => match i with BStatic _ _ _ _ _ => if live g then anon_of_item i else [] | _ => anon_of_item i end) b
                      | _ => []
                      end) ds.
 
@@ -245,13 +249,15 @@ Definition od_same_type (a b : objdecl) : bool :=
 (* 6.7.5p4/p7: a specifier is not less strict than the type's alignment, all specifiers of an object are
    equivalent, and (p7 as gcc reads it: the specifier need not be repeated on later declarations, but) no
    defining declaration comes before the first declaration that carries it *)
+(* a declaration that can be the definition of the object: tentative or with an initializer *)
+Definition is_defining (d : objdecl) : bool := negb (sc_eqb (o_sc d) SC_extern) || has_init (o_init d).
 Definition has_spec (d : objdecl) : bool := match o_alignas d with Some _ => true | None => false end.
 Definition first_spec (s : list objdecl) : option Z :=
   fold_right (fun d acc => match o_alignas d with Some a => Some a | None => acc end) None s.
 Fixpoint spec_positions (seen : bool) (s : list objdecl) : bool :=
   match s with
   | [] => true
-  | d :: r => let seen' := seen || has_spec d in (sc_eqb (o_sc d) SC_extern || seen') && spec_positions seen' r
+  | d :: r => let seen' := seen || has_spec d in (negb (is_defining d) || seen') && spec_positions seen' r
   end.
 Definition align_ok (s : list objdecl) : bool :=
   match first_spec s with
